@@ -169,8 +169,6 @@ Proof.
   unfold field_inputs_uncached in *. cbn [flat_map map matches_of_inputs]. rewrite IH. reflexivity.
 Qed.
 
-Lemma link_post_from_eq X ord st l : link_post X ord st l = link_post_from st l (link_matches X ord st l).
-Proof. unfold link_post, link_post_from. destruct (l_kind l); reflexivity. Qed.
 
 (* ------------------------------------------------------------------------------------ *)
 (* 4. the cached evaluation IS Match.v's evaluation                                      *)
@@ -185,20 +183,22 @@ Notation wf := (fun l => tc_rule_wf tid sm (b_rule pidf l)).
 Lemma eval_targets_c_eq ord ko st l neg o : wf l -> forall cps i cs, inv cs ->
   exists cs', eval_targets_c X ord ko pidf st l neg o i cps cs = (eval_targets X ord st l neg o i cps, cs') /\ inv cs'.
 Proof.
-  intro Hwf. induction cps as [|c cps IH]; intros i cs Hinv.
+  intro Hwf. intros cps. revert st. induction cps as [|c cps IH]; intros st i cs Hinv.
   - exists cs. split; [reflexivity | exact Hinv].
-  - cbn [eval_targets_c eval_targets].
+  - cbn [eval_targets_c eval_targets]. unfold target_matches.
     destruct (field_inputs_cached_eq_uncached sm pidf l
                 (attach_keys (ko [i]) 0 (get_field X (sub ord i) st c)) cs Hwf Hinv) as (cs1 & E1 & Hinv1).
-    rewrite E1, sel_mds_attach.
-    destruct (IH (S i) cs1 Hinv1) as (cs2 & E2 & Hinv2). rewrite E2.
-    exists cs2. split; [|exact Hinv2]. rewrite satisfying_of_inputs. reflexivity.
+    rewrite E1, sel_mds_attach. rewrite <- satisfying_of_inputs.
+    destruct (IH (fold_left match_variable (flat_map (satisfying X l neg o) (get_field X (sub ord i) st c)) st)
+                 (S i) cs1 Hinv1) as (cs2 & E2 & Hinv2). rewrite E2.
+    exists cs2. split; [|exact Hinv2].
+    destruct (eval_targets X ord _ l neg o (S i) cps) as [rest st']. reflexivity.
 Qed.
 
 Lemma link_matches_c_eq ord ko st l cs : wf l -> inv cs ->
-  exists cs', link_matches_c X ord ko pidf st l cs = (link_matches X ord st l, cs') /\ inv cs'.
+  exists cs', link_matches_c X ord ko pidf st l cs = (link_eval X ord st l, cs') /\ inv cs'.
 Proof.
-  intros Hwf Hinv. unfold link_matches_c, link_matches. destruct (l_kind l) as [svs|neg o].
+  intros Hwf Hinv. unfold link_matches_c, link_eval. destruct (l_kind l) as [svs|neg o].
   - exists cs. split; [reflexivity | exact Hinv].
   - apply eval_targets_c_eq; assumption.
 Qed.
@@ -208,13 +208,13 @@ Lemma eval_chain_c_eq ord ko : forall ls st lvl cs, links_wf sm pidf ls -> inv c
 Proof.
   induction ls as [|l ls IH]; intros st lvl cs Hwf Hinv.
   - exists cs. split; [reflexivity | exact Hinv].
-  - inversion Hwf as [|? ? Hl Hls]; subst. cbn [eval_chain_c eval_chain].
+  - inversion Hwf as [|? ? Hl Hls]; subst. rewrite eval_chain_cons. cbn [eval_chain_c].
     destruct (link_matches_c_eq (sub ord lvl) (ksub ko lvl) st l cs Hl Hinv) as (cs1 & E1 & Hinv1).
-    rewrite E1. rewrite <- link_post_from_eq.
-    destruct (is_nil (link_matches X (sub ord lvl) st l)).
+    rewrite E1. unfold link_matches, link_post. destruct (link_eval X (sub ord lvl) st l) as [ms0 st0]. cbn [fst snd].
+    destruct (is_nil ms0).
     + exists cs1. split; [reflexivity | exact Hinv1].
-    + destruct (IH (link_post X (sub ord lvl) st l) (S lvl) cs1 Hls Hinv1) as (cs2 & E2 & Hinv2).
-      rewrite E2. destruct (eval_chain X ord (link_post X (sub ord lvl) st l) (S lvl) ls) as [[rest|] st''];
+    + destruct (IH st0 (S lvl) cs1 Hls Hinv1) as (cs2 & E2 & Hinv2).
+      rewrite E2. destruct (eval_chain X ord st0 (S lvl) ls) as [[rest|] st''];
         exists cs2; (split; [reflexivity | exact Hinv2]).
 Qed.
 
@@ -236,8 +236,8 @@ Proof.
   - exists cs. split; [reflexivity | exact Hinv].
   - inversion Hwf as [|? ? Hr Hrs]; subst. cbn [eval_rules_c eval_rules].
     destruct (in_phase ph r).
-    + destruct (eval_rule_c_eq (sub ord i) (ksub ko i) st r cs Hr Hinv) as (cs1 & E1 & Hinv1).
-      rewrite E1. destruct (eval_rule X (sub ord i) st r) as [res st'].
+    + destruct (eval_rule_c_eq (sub ord i) (ksub ko i) (set_mvars st []) r cs Hr Hinv) as (cs1 & E1 & Hinv1).
+      rewrite E1. destruct (eval_rule X (sub ord i) (set_mvars st []) r) as [res st'].
       destruct (IH st' (S i) cs1 Hrs Hinv1) as (cs2 & E2 & Hinv2). rewrite E2.
       destruct (eval_rules X ord st' ph (S i) rules) as [out st''].
       exists cs2. split; [reflexivity | exact Hinv2].
